@@ -15,6 +15,7 @@ mod c15;
 mod c16;
 mod c17;
 mod c18;
+mod c19;
 mod client;
 mod poolop;
 mod sched;
@@ -49,6 +50,9 @@ fn eval(op: &str, args: &[&str]) -> Option<Vec<String>> {
         "mime" => c11::mime(args),
         "dkim" => c13::dkim(args),
         "sched" => sched::sched(args),
+        "np" => c19::np(args),
+        "scale" => c19::scale(args),
+        "npdbg" => c19::npdbg(args),
         "dkimbody" => c13::dkimbody(args),
         "dkimhdrs" => c13::dkimhdrs(args),
         "mbox" => c17::mbox(args),
